@@ -15,16 +15,17 @@ RULE = ("Files from per-format grammars (two-line and wrapped FASTA, FASTQ, BED3
         "crossed with chunk size k, {plain, gzip}, {final newline, none}, {LF, CRLF}, {lazy, eager}. "
         "Exhaustive core: every sequence of 1..n records whose variable fields all have a width from a small set, every k from 1 to size+2 "
         "and every combination of the four flags. Sampled remainder: Hypothesis files of up to 60 records with k biased to divisors of "
-        "the file size, record sizes +-1 and record boundaries. Oracle: rows of all delivered chunks concatenated == rows of read() of the "
+        "the file size, record sizes +-1 and record boundaries, a quarter of them with a max_chunk_size. Oracle: rows of all delivered chunks concatenated == rows of read() of the "
         "same bytes; no empty chunk delivered; raising is allowed only when k is smaller than the longest record; for a third of the chunk sizes "
         "that give 3 to 5 chunks, np.concatenate of the (untouched) chunk tables must also have the rows of read(). "
         "Non-trivial: k < file size (at least two raw reads). Distinct: by the whole case.")
 ASSUMPTIONS = [
     "Generated files are well formed by the format definitions; spellings are canonical so read() itself is not in question here (C02 checks it).",
     "gzip input is read through gzip.GzipFile over BytesIO with prepend mode, as bnp.open does; a seeded sample goes through real files and bnp.open.",
-    "An exception is tolerated only if k is smaller than the byte length of the longest record including its line ends.",
+    "An exception is tolerated only if k is smaller than the byte length of the longest record including its line ends, or if a max_chunk_size was given that is smaller than file size + k + 2 (the documented 'no complete entry found' limit).",
 ]
-REQUIRED_CLASSES = ["k-divides-size", "no-final-newline", "gzip", "crlf", "lazy", "eager", "k-lt-size", "via-path"]
+REQUIRED_CLASSES = ["k-divides-size", "no-final-newline", "gzip", "crlf", "lazy", "eager", "k-lt-size", "via-path", "max-chunk-size-given",
+                    "max-chunk-size-never-reached"]
 BOUNDS = {
     "quick": "core: widths {1,2}, up to 3 records, all 10 formats, all k in 1..size+2, all 16 flag combinations (every 4th case from each of 4 offsets = complete), plus a 1-in-8 stride sample of the same core with widths {1,5}; 40 sampled files for each of 16 formats",
     "thorough": "core: widths {1,2,5}, up to 4 records, all 10 formats, all k, all 16 flag combinations; 500 sampled files for each of 16 formats",
@@ -58,11 +59,23 @@ def read_whole(data, case, fmt):
 
 def read_chunked(data, case, fmt):
     rows, sizes = [], []
-    for chunk in _reader(data, case, fmt).read_chunks(min_chunk_size=case["k"]):
+    for chunk in _reader(data, case, fmt).read_chunks(min_chunk_size=case["k"], **_max_kw(case)):
         r = formats.table_rows(chunk)
         sizes.append(len(r))
         rows.extend(r)
     return rows, sizes
+
+
+def _max_kw(case):
+    return {"max_chunk_size": case["max_k"]} if case.get("max_k") is not None else {}
+
+
+def raise_allowed(case):
+    """A chunk size smaller than the longest record may raise; so may a max_chunk_size that the bytes gathered for one chunk can exceed
+    (anything below file size + chunk size + the appended terminator bytes is treated as such)."""
+    if case["k"] < longest_record(case):
+        return True
+    return case.get("max_k") is not None and case["max_k"] < len(formats.serialize(case)) + case["k"] + 2
 
 
 def read_via_path(data, case, fmt):
@@ -75,7 +88,7 @@ def read_via_path(data, case, fmt):
         whole = formats.table_rows(bnp.open(path, buffer_type=bt, lazy=bool(case.get("lazy"))).read())
         rows, sizes = [], []
         fh = bnp.open(path, buffer_type=bt, lazy=bool(case.get("lazy")))
-        for chunk in fh.read_chunks(min_chunk_size=case["k"]):
+        for chunk in fh.read_chunks(min_chunk_size=case["k"], **_max_kw(case)):
             r = formats.table_rows(chunk)
             sizes.append(len(r))
             rows.extend(r)
@@ -106,6 +119,10 @@ def classify(case):
     cl.append("lazy" if case.get("lazy") else "eager")
     if case.get("via_path"):
         cl.append("via-path")
+    if case.get("max_k") is not None:
+        cl.append("max-chunk-size-given")
+        if case["max_k"] >= size + k + 2:
+            cl.append("max-chunk-size-never-reached")
     if k < longest_record(case):
         cl.append("k-lt-longest-record")
     return k < size, cl
@@ -129,7 +146,7 @@ def check(case, stats=None):
                 whole = read_whole(data, case, fmt)
             except Exception as e2:
                 return [Failure(f"C01:whole-read-raised:{type(e2).__name__}", {"error": repr(e2)[:300]})]
-            if case["k"] < longest_record(case):
+            if raise_allowed(case):
                 if stats is not None:
                     stats.raised_allowed[type(e).__name__] += 1
                 return []
@@ -141,7 +158,7 @@ def check(case, stats=None):
         try:
             rows, sizes = read_chunked(data, case, fmt)
         except Exception as e:
-            if case["k"] < longest_record(case):
+            if raise_allowed(case):
                 if stats is not None:
                     stats.raised_allowed[type(e).__name__] += 1
                 return []
@@ -234,6 +251,10 @@ def sampled_case(draw, fmt, max_records, W):
     case.update(k=k, gzip=draw(st.booleans()), lazy=draw(st.booleans()))
     if draw(st.integers(0, 9)) == 0:
         case["via_path"] = True
+    if draw(st.integers(0, 3)) == 0:
+        # an upper limit on the bytes gathered for one chunk: far above what can be gathered, just above the longest record, or anything
+        case["max_k"] = draw(st.one_of(st.just(size + k + 2), st.integers(size + k + 2, 2 * size + 2 * k + 4), st.integers(1, size + k + 2),
+                                       st.just(max(rec_sizes) + k)))
     return case
 
 
